@@ -555,6 +555,16 @@ func (un *Unit) recordInlined(fr *Frame, callee *ssa.Function, rets []Val, args 
 			argRec[p.Name()] = a
 		}
 	}
+	if len(callee.Params) == 0 && callee.Signature.Recv() == nil {
+		// a function without a built body (standard library): parameter names from the signature
+		ps := callee.Signature.Params()
+		for i := 0; i < ps.Len() && i < len(args); i++ {
+			a := args[i]
+			a.callGuard = g
+			a.typ = ps.At(i).Type()
+			argRec[ps.At(i).Name()] = a
+		}
+	}
 	for f := fr; f != nil; f = f.parent {
 		f.calls[calleeKey]++
 		o := f.calls[calleeKey]
@@ -988,7 +998,10 @@ func (un *Unit) modelCall(fr *Frame, st *State, callee *ssa.Function, full strin
 		}
 		return Val{t: t}, true
 	case "time.Unix":
-		return Val{t: "(+ (* " + args[0].t + " 1000000000) " + args[1].t + ")"}, true
+		// recorded like an inlined call, so that a contract can say which stamp was converted: arg(Unix, k, sec|nsec)
+		v := Val{t: "(+ (* " + args[0].t + " 1000000000) " + args[1].t + ")"}
+		un.recordInlined(fr, callee, []Val{v}, args, st.guard)
+		return v, true
 	case "(time.Time).Add":
 		return Val{t: "(+ " + args[0].t + " " + args[1].t + ")"}, true
 	case "(time.Time).Sub":
